@@ -176,6 +176,15 @@ def probes() -> list[Item]:
     out.append(Item(Prog(accounts={TARGET: code}, calldata=[Sym("cd0", 256), Sym("cd1", 256)], name="hash-const-minus-one",
                          meta={"bounded_inputs": {"cd0": 2**64, "cd1": 2**64}}),
                     [{"cd0": 1, "cd1": 0}, {"cd0": 5, "cd1": 4}, {"cd0": 5, "cd1": 5}, {"cd0": 0, "cd1": 0}], key="probe:hash-const-minus-one"))
+    # elements of the array at slot 1 / fields of the mapping entry m[1] at slot 0 addressed by PUSH32 constants
+    # `hash + i` for hashes of halmos' precomputed table (never computed at run time on the path): distinct offsets are
+    # distinct slots, equal offsets the same slot
+    k64 = int.from_bytes(keccak((1).to_bytes(32, "big") + (0).to_bytes(32, "big")), "big")
+    for nm, base in (("array", k32(1)), ("mapping", k64)):
+        for (i, j) in ((1, 0), (0, 2), (3, 3)):
+            body = [("PUSH", 0), "CALLDATALOAD", ("PUSHN", 32, (base + i) % 2**256), "SSTORE", ("PUSH", 0x22), ("PUSHN", 32, (base + j) % 2**256), "SSTORE",
+                    ("PUSHN", 32, (base + i) % 2**256), "SLOAD"]
+            out.append(prog(f"precomputed-hash-const-offsets-{nm}-{i}-{j}", body))
     # mapping(uint => S[]) m at slot 0 with a three-slot struct S: m[k][i].f1 lives at keccak(keccak(k . 0)) + 3*i + 1 - a sum of
     # a hash of symbolic data, a symbolic element offset and a constant field offset, in the orders a compiler may emit
     def elem(i_code, order):
